@@ -103,8 +103,10 @@ func ruleGuarded(r *Run, p *Program, rule string) {
 					need = "DB.mu (exclusive)"
 				case fileR[fe.Method] && !holdsRead(held):
 					need = "DB.mu (shared or exclusive)"
-				case fileCursor[fe.Method] && !(holdsWrite(held) || held["maint"]):
-					need = "DB.mu (exclusive) or maintenanceMu"
+				case fileCursor[fe.Method] && !(held["maint"] || held["OPEN"]):
+					// compaction keeps a reader positioned on the source segment across its per-record sections of DB.mu:
+					// only the maintenance lock keeps other users of the shared file position away
+					need = "maintenanceMu"
 				}
 				if need != "" {
 					key := funcKey(n.Ctx.Fn) + ":File." + fe.Method + fe.Recv.Chain
@@ -335,16 +337,22 @@ func ruleGoroutine(r *Run, p *Program, rule string) {
 				}
 			}
 			r.check(done, rule, construct+":wg-done", pos, "the goroutine defers WaitGroup.Done first", "the goroutine does not defer WaitGroup.Done at its start: Close would wait forever or not at all")
-			// the select has a ctx.Done() case that leaves the loop
-			var sel *ssa.Select
-			instrsOf(body, func(x ssa.Instruction) {
-				if s, ok := x.(*ssa.Select); ok {
-					sel = s
+			// the select (in the body or in a helper it calls per iteration) has a ctx.Done() case that leaves the loop
+			rootCtx := &Ctx{Fn: body}
+			all, _ := allNodesFrom(p, rootCtx)
+			var selNode *Node
+			for nd := range all.Reached {
+				if _, ok := nd.In.(*ssa.Select); ok {
+					nd := nd
+					if selNode == nil || nd.In.Pos() < selNode.In.Pos() {
+						selNode = &nd
+					}
 				}
-			})
-			if !r.anchor(rule, "select in goroutine body", sel != nil) {
+			}
+			if !r.anchor(rule, "select in goroutine body", selNode != nil) {
 				return
 			}
+			sel := selNode.In.(*ssa.Select)
 			doneIdx := -1
 			for i, st := range sel.States {
 				if c, ok := strip(st.Chan).(*ssa.Call); ok && c.Call.IsInvoke() && c.Call.Method.Name() == "Done" {
@@ -354,42 +362,26 @@ func ruleGoroutine(r *Run, p *Program, rule string) {
 			if !r.check(doneIdx >= 0, rule, construct+":ctx-done-case", pos, "the worker loop selects on ctx.Done()", "the worker loop has no ctx.Done() case: it cannot be cancelled") {
 				return
 			}
-			// the branch taken when the chosen index == doneIdx must not reach the select again
-			exits := false
-			for _, b := range body.Blocks {
-				for k := range b.Succs {
-					c := edgeCond(b, k)
-					if c == nil {
-						continue
-					}
-					eq, ok := c.holdsEq()
-					if !ok || !eq {
-						continue
-					}
-					ci, okc := constInt(c.Y)
-					ex, okx := strip(c.X).(*ssa.Extract)
-					if !okc || !okx || ex.Tuple != ssa.Value(sel) || ex.Index != 0 || int(ci) != doneIdx {
-						continue
-					}
-					// walk from this edge target
-					seen := map[*ssa.BasicBlock]bool{}
-					stack := []*ssa.BasicBlock{b.Succs[k]}
-					back := false
-					for len(stack) > 0 {
-						x := stack[len(stack)-1]
-						stack = stack[:len(stack)-1]
-						if seen[x] {
-							continue
-						}
-						seen[x] = true
-						if x == sel.Block() {
-							back = true
-						}
-						stack = append(stack, x.Succs...)
-					}
-					exits = !back
+			// with the dispatch on the select's index fixed to the ctx.Done() case, the select is not reached again
+			wsel := &IPWalk{P: p, SkipEdge: func(ctx *Ctx, b *ssa.BasicBlock, k int) bool {
+				c := edgeCond(b, k)
+				if c == nil {
+					return false
 				}
-			}
+				eq, ok := c.holdsEq()
+				if !ok {
+					return false
+				}
+				ci, okc := constInt(c.Y)
+				ex, okx := strip(c.X).(*ssa.Extract)
+				if !okc || !okx || ex.Tuple != ssa.Value(sel) || ex.Index != 0 {
+					return false
+				}
+				// this edge asserts (index == ci) == eq; we are in the case index == doneIdx
+				return (int(ci) == doneIdx) != eq
+			}}
+			wsel.Run(rootCtx, []Node{*selNode})
+			exits := !wsel.Reached[*selNode]
 			r.check(exits, rule, construct+":ctx-done-returns", pos, "the ctx.Done() case leaves the loop", "the ctx.Done() case does not leave the worker loop: the goroutine survives Close")
 		})
 	}
